@@ -233,8 +233,28 @@ def rule_argmin(ctx):
             ik_rest = ik.replace("call:skip(call:enumerate(", "call:enumerate(", 1) if starts_from_row0 else ik
             if "param:centroids" in ik and not any(x in ik_rest for x in ("call:skip", "call:take", "call:step_by", "call:rev(", "call:filter")) and any(x in ik for x in ("call:rows", "call:outer_iter", "call:axis_iter", "call:genrows")):
                 res.ok()
-            else:
+            elif "param:centroids" in ik and any(x in ik_rest for x in ("call:skip", "call:take", "call:step_by", "call:rev(", "call:filter")) and any(x in ik for x in ("call:rows", "call:outer_iter", "call:axis_iter", "call:genrows")):
                 res.violate("%s : coverage" % skey, "the scan does not iterate over all rows of the centroid matrix: %s" % ik[:120], fn_loc(scan))
+            else:
+                # another way of walking the rows (the chunks of `as_slice()` with a fallback for the other layouts): what it
+                # covers is not read here - the layout discipline of such a walk is R-C09-memorder's business
+                res.undecided("%s : coverage-form" % skey, "coverage of the centroid rows not established: %s" % ik[:120], fn_loc(scan))
+        # every distance the scan compares and hands back is one that the configured metric computed: a local that is
+        # compared with `<` and stored as the running minimum has an initialiser that calls Distance::rdistance (or is the
+        # identity element of the minimum)
+        c_ = scan["crate"]
+        inits_ = {}
+        for y in walk(scan["body"]):
+            if y.get("k") == "LetStmt" and y.get("init") is not None and y["pat"].get("k") == "Bind":
+                inits_[y["pat"]["local"]] = y["init"]
+        for y in walk(scan["body"]):
+            if y.get("k") == "Assign" and peel_refs(y["r"]).get("k") == "Path" and peel_refs(y["r"]).get("local") in inits_ and (c_.ty(peel_refs(y["r"]).get("t")) or "").strip() in ("F", "f32", "f64"):
+                init = inits_[peel_refs(y["r"])["local"]]
+                by_metric = any(z.get("k") == "MethodCall" and z["name"] in ("rdistance", "distance") and "Distance" in ((c_.dfn(z.get("def")) or {}).get("trait") or "") for z in walk(init))
+                arith = any(z.get("k") in ("Binary",) and z["op"] in ("-", "+", "*") for z in walk(init)) or any(z.get("k") == "MethodCall" and z["name"] in ("abs", "powi", "sqrt", "dot") for z in walk(init))
+                if not by_metric and arith:
+                    res.instance("%s : running minimum taken from `%s`" % (skey, Render(c_).e(init)[:40]))
+                    res.violate("%s : distance-without-the-metric" % skey, "the running minimum is replaced by `%s`, a distance computed by hand and not by the configured metric's rdistance: for a metric whose reduced distance is not that expression (the squared distance of L2) the returned value, the inertia and the sampling weights are in another unit" % Render(c_).e(init)[:60], fn_loc(scan, y.get("ln")))
         # returns the pair
         rk = k(tr.result)
         res.instance("%s : returns %s" % (skey, rk[:80]))
